@@ -1093,7 +1093,7 @@ def z_pr(T, P, mass, Mol_wt, Pc, Tc, omega, delta, Aij, Bij,
     z_min = z_max
     for i in range(3):
         if (np.imag(z_roots[i]) == 0.0):
-            if ((np.real(z_roots[i]) < z_min) and (np.real(z_roots[i]) > 0.)):
+            if ((np.real(z_roots[i]) < z_min) and (np.real(z_roots[i]) > B)):
                 z_min = np.real(z_roots[i])
     
     # Return the z-factors in z
